@@ -8,18 +8,28 @@ From TarsV Require Import Gen.Consts Conc.Flush Conc.FlushProofs.
 Import ListNotations.
 Open Scope N_scope.
 
-(* every entry whose logging call returned before FlushLogger was (first) called has been written when FlushLogger
-   returns on the flusher's acknowledgement ... *)
-Theorem C20_flush_complete : forall cap l1 l2 l3 s,
-  run cap init (l1 ++ FlushCall :: l2 ++ FlushRet true :: l3) = Some s -> ~ In FlushCall l1 ->
-  forall e, In e (rets_of l1) -> In e (writes_of (l1 ++ FlushCall :: l2)).
+(* Any number of FlushLogger callers c, c', ..., concurrent or not (Run's deferred call, CheckPanic in any goroutine, the
+   application). Every entry whose logging call returned before a FlushLogger call made while nobody had signalled yet
+   (no Request in l1: in particular before the first call of all) has been written when a call — this one or another
+   caller's — returns on the flusher's acknowledgement ... *)
+Theorem C20_flush_complete : forall cap l1 c l2 c' l3 s,
+  run cap init (l1 ++ FlushCall c :: l2 ++ FlushRet c' true :: l3) = Some s -> existsb is_request l1 = false ->
+  forall e, In e (rets_of l1) -> In e (writes_of (l1 ++ FlushCall c :: l2)).
 Proof. exact FlushProofs.flush_complete. Qed.
+Theorem C20_flush_complete_first_call : forall cap l1 c l2 c' l3 s,
+  run cap init (l1 ++ FlushCall c :: l2 ++ FlushRet c' true :: l3) = Some s -> existsb is_flushcall l1 = false ->
+  forall e, In e (rets_of l1) -> In e (writes_of (l1 ++ FlushCall c :: l2)).
+Proof. exact FlushProofs.flush_complete_first_call. Qed.
+(* the fact behind it: whatever returned before the flusher's acknowledging step has been written *)
+Theorem C20_all_before_ack_written : forall cap l1 l2 s,
+  run cap init (l1 ++ DrainDone :: l2) = Some s -> forall e, In e (rets_of l1) -> In e (writes_of l1).
+Proof. exact FlushProofs.all_before_ack_written. Qed.
 
 (* ... exactly once (no Write is repeated anywhere in the schedule, and none follows the acknowledgement) *)
 Theorem C20_written_once : forall cap ls s, run cap init ls = Some s -> NoDup (writes_of ls).
 Proof. exact FlushProofs.writes_once. Qed.
-Theorem C20_no_write_after_ack : forall cap l1 l3 s,
-  run cap init (l1 ++ FlushRet true :: l3) = Some s -> writes_of l3 = [].
+Theorem C20_no_write_after_ack : forall cap l1 c l3 s,
+  run cap init (l1 ++ FlushRet c true :: l3) = Some s -> writes_of l3 = [].
 Proof. exact FlushProofs.no_write_after_ack. Qed.
 
 (* entries of one goroutine reach the writers in the order they were logged *)
@@ -50,30 +60,30 @@ Proof. exact FlushProofs.flusher_not_blocked_after_request. Qed.
 (* ... and, counted from FlushLogger's (first) signal, [2 * length of the queue + 2] of its steps (a receive and a Write per
    entry) suffice to write every entry whose call had returned, however many entries other goroutines log meanwhile. (That these steps fit into FlushLogger's
    one second depends on the scheduler and the writers' speed: outside the model.) *)
-Theorem C20_flush_bounded : forall cap l1 l2 s1 s2 s,
-  run cap init l1 = Some s1 -> req s1 = false -> step cap s1 Request = Some s2 -> run cap s2 l2 = Some s ->
+Theorem C20_flush_bounded : forall cap l1 c l2 s1 s2 s,
+  run cap init l1 = Some s1 -> req s1 = false -> step cap s1 (Request c) = Some s2 -> run cap s2 l2 = Some s ->
   (2 * length (q s1) + 2 <= flusher_steps l2)%nat ->
-  forall e, In e (rets_of l1) -> In e (writes_of (l1 ++ Request :: l2)).
+  forall e, In e (rets_of l1) -> In e (writes_of (l1 ++ Request c :: l2)).
 Proof. exact FlushProofs.flush_bounded. Qed.
 
 (* FlushLogger is one-shot (known finding "second flush"). The model lets FlushLogger be called again, as the code
    does; without "first call" the completeness statement is FALSE of the faithful model and of the code: *)
-Definition C20_flush_complete_any_call_statement : Prop := forall cap l1 l2 l3 s,
-  run cap init (l1 ++ FlushCall :: l2 ++ FlushRet true :: l3) = Some s ->
-  forall e, In e (rets_of l1) -> In e (writes_of (l1 ++ FlushCall :: l2)).
+Definition C20_flush_complete_any_call_statement : Prop := forall cap l1 c l2 c' l3 s,
+  run cap init (l1 ++ FlushCall c :: l2 ++ FlushRet c' true :: l3) = Some s ->
+  forall e, In e (rets_of l1) -> In e (writes_of (l1 ++ FlushCall c :: l2)).
 Theorem C20_flush_complete_any_call_refuted : ~ C20_flush_complete_any_call_statement.
 Proof. exact FlushProofs.flush_complete_any_call_refuted. Qed.
 (* witness (vm_compute): log, flush, log e, flush again — the second call returns on the acknowledgement, e stays queued *)
 Theorem C20_second_flush_refuted :
-  exists cap l1 l2 l3 e s,
-    run cap init (l1 ++ FlushCall :: l2 ++ FlushRet true :: l3) = Some s /\ In e (rets_of l1) /\
-    ~ In e (writes_of (l1 ++ FlushCall :: l2 ++ FlushRet true :: l3)) /\ q s = [e] /\ fl s = FLReturned true.
+  exists cap l1 c l2 l3 e s,
+    run cap init (l1 ++ FlushCall c :: l2 ++ FlushRet c true :: l3) = Some s /\ In e (rets_of l1) /\
+    ~ In e (writes_of (l1 ++ FlushCall c :: l2 ++ FlushRet c true :: l3)) /\ q s = [e] /\ fl s c = FReturned true.
 Proof. exact FlushProofs.second_flush_refuted. Qed.
 (* in general: an entry logged after the acknowledged flush is never written, whatever follows — the flusher goroutine
    has returned *)
-Theorem C20_logged_after_ack_never_written : forall cap l1 l3 s,
-  run cap init (l1 ++ FlushRet true :: l3) = Some s ->
-  forall e, In e (calls_of l3) -> ~ In e (writes_of (l1 ++ FlushRet true :: l3)).
+Theorem C20_logged_after_ack_never_written : forall cap l1 c l3 s,
+  run cap init (l1 ++ FlushRet c true :: l3) = Some s ->
+  forall e, In e (calls_of l3) -> ~ In e (writes_of (l1 ++ FlushRet c true :: l3)).
 Proof. exact FlushProofs.logged_after_ack_never_written. Qed.
 
 (* the tie: every visible trace of the model, under every schedule, is accepted by the specification machine
@@ -88,9 +98,9 @@ Proof. exact FlushProofs.tree_constants_in_range. Qed.
 (* ... and acceptance means the property: on an accepted trace every entry whose call returned before FlushLogger was
    called is written before the acknowledged return; each entry is written at most once and only after its call began;
    an entry whose call returned before another's call began is written first (hence per-goroutine order) *)
-Theorem C20_accepted_trace_complete : forall t1 t2 t3,
-  accepts (t1 ++ EFlushCall :: t2 ++ EFlushRet true :: t3) = true -> ~ In EFlushCall t1 ->
-  forall e, In (ERet e) t1 -> In (EWrite e) (t1 ++ EFlushCall :: t2).
+Theorem C20_accepted_trace_complete : forall t1 c t2 c' t3,
+  accepts (t1 ++ EFlushCall c :: t2 ++ EFlushRet c' true :: t3) = true -> existsb is_fcall t1 = false ->
+  forall e, In (ERet e) t1 -> In (EWrite e) (t1 ++ EFlushCall c :: t2).
 Proof. exact FlushProofs.accepts_complete. Qed.
 Theorem C20_accepted_trace_once : forall a e b,
   accepts (a ++ EWrite e :: b) = true -> ~ In (EWrite e) a /\ In (ECall e) a.
@@ -117,3 +127,5 @@ Print Assumptions C20_accepted_trace_once.
 Print Assumptions C20_accepted_trace_fifo.
 Print Assumptions C20_flush_complete_any_call_refuted.
 Print Assumptions C20_second_flush_refuted.
+Print Assumptions C20_flush_complete_first_call.
+Print Assumptions C20_all_before_ack_written.
